@@ -438,10 +438,11 @@ func (m *Encoder) encodeTimeDate(v reflect.Value) error {
 	// Get the time zone kind to build a Timestamp
 	zoneName, zoneOffset := t.Zone()
 	var kind TimezoneKind
-	if zoneName != "" && zoneOffset == 0 {
-		kind = TimezoneUTC
-	} else if zoneName != "" && zoneOffset != 0 {
+	if zoneOffset != 0 {
+		// A non-zero offset is a known offset, whether or not the zone has a name.
 		kind = TimezoneLocal
+	} else if zoneName != "" {
+		kind = TimezoneUTC
 	} else {
 		kind = TimezoneUnspecified
 	}
